@@ -38,3 +38,50 @@ package frame
 //@   panics_if prefix > len(f.data) || prefix < 0
 //@   ensures  result.data == f.data && result.off == f.off && result.len == f.len && result.cap == f.cap && result.prefix == prefix - 1
 //@   modifies nothing
+
+// ---- element access through views (C11): every operation addresses exactly rows [off, off+len) ----
+// (abstract column memory ColMem and the role contracts of the per-column closures are in /verif/trusted/frame.contracts)
+
+//@ spec func colOK(d data) bool = opsCol(d.ops) == d.ptr && rvCol(d.val) == d.ptr && rvOff(d.val) == 0 && rvCap(d.val) == colLen(d.ptr) && rvLen(d.val) <= colLen(d.ptr) && d.typ.size >= 1
+//@ spec func wf(f Frame) bool = 0 <= f.off && 0 <= f.len && f.len <= f.cap && -1 <= f.prefix && f.prefix < len(f.data) && forall(k, 0, len(f.data), colOK(f.data[k]) && f.off + f.cap <= colLen(f.data[k].ptr))
+//@ spec func cellAt(f Frame, c int, i int) int = ColMem[f.data[c].ptr][f.off+i]
+//@ spec func cellLess(f Frame, c int, i int, j int) bool = elemLess(colKind(f.data[c].ptr), cellAt(f, c, i), cellAt(f, c, j))
+
+//@ func frame.Frame.Swap
+//@   requires wf(f) && 0 <= i && i < f.len && 0 <= j && j < f.len
+//@   ensures  rows-exchanged: forall(k, 0, len(f.data), ColMem[f.data[k].ptr] == upd(upd(old(ColMem[f.data[k].ptr]), f.off+i, old(ColMem[f.data[k].ptr][f.off+j])), f.off+j, old(ColMem[f.data[k].ptr][f.off+i])))
+//@   modifies ColMem
+//@   loop 1 invariant forall(c, 0, range_idx, ColMem[f.data[c].ptr] == upd(upd(old(ColMem[f.data[c].ptr]), f.off+i, old(ColMem[f.data[c].ptr][f.off+j])), f.off+j, old(ColMem[f.data[c].ptr][f.off+i])))
+//@   loop 1 invariant forall(c, range_idx, len(f.data), ColMem[f.data[c].ptr] == old(ColMem[f.data[c].ptr]))
+
+//@ func frame.Frame.Less
+//@   requires wf(f) && 0 <= i && i < f.len && 0 <= j && j < f.len && f.prefix >= 0
+//@   ensures  lexicographic: result == exists(c, 0, f.prefix+1, cellLess(f, c, i, j) && forall(b, 0, c, !cellLess(f, b, i, j) && !cellLess(f, b, j, i)))
+//@   modifies nothing
+//@   loop 1 invariant 0 <= col && col <= f.prefix && forall(b, 0, col, !cellLess(f, b, i, j) && !cellLess(f, b, j, i))
+
+//@ func frame.Frame.Index
+//@   requires wf(f) && 0 <= col && col < len(f.data) && 0 <= i && i < f.len && f.off + f.len <= rvLen(f.data[col].val)
+//@   ensures  cell: elCol(result) == f.data[col].ptr && elIdx(result) == f.off + i
+//@   modifies nothing
+
+//@ func frame.Frame.Value
+//@   requires wf(f) && 0 <= i && i < len(f.data)
+//@   ensures  view: rvCol(result) == f.data[i].ptr && rvOff(result) == f.off && rvLen(result) == f.len
+//@   modifies nothing
+
+//@ func frame.Frame.HasCodec
+//@   requires 0 <= col && col < len(f.data)
+//@   ensures result == (f.data[col].ops.Encode != nil)
+//@   modifies nothing
+
+//@ func frame.Frame.Encode
+//@   requires wf(f) && 0 <= col && col < len(f.data) && f.data[col].ops.Encode != nil
+//@   ensures  exactly-the-view: encCalls == old(encCalls) + 1 && lastEncCol == f.data[col].ptr && lastEncLo == f.off && lastEncHi == f.off + f.len
+//@   modifies encCalls, lastEncCol, lastEncLo, lastEncHi
+
+//@ func frame.Frame.Decode
+//@   requires wf(f) && 0 <= col && col < len(f.data) && f.data[col].ops.Decode != nil
+//@   ensures  exactly-the-view: encCalls == old(encCalls) + 1 && lastEncCol == f.data[col].ptr && lastEncLo == f.off && lastEncHi == f.off + f.len
+//@   ensures  rows-outside-untouched: forall(k, implies(k < f.off || k >= f.off + f.len, ColMem[f.data[col].ptr][k] == old(ColMem[f.data[col].ptr][k])))
+//@   modifies ColMem[f.data[col].ptr], encCalls, lastEncCol, lastEncLo, lastEncHi
